@@ -365,15 +365,24 @@ def c15_case(rnd, cs, job, acc):
     kinds = [dict(subslot=True), dict(core=True, subslot=False), dict(subslot=True, alap=True, teams=False), dict(subslot=False, max_depth=4, ntasks=(4, 10))]
     kw = dict(rnd.choice(kinds))
     kw.update(res_choices=(60, 60, 30, 15), tz=rnd.random() < 0.3, alts=rnd.random() < 0.3)
+    ties = rnd.random() < 0.08
+    if ties:
+        kw.update(nres=(4, 6), teams=False, limits=False, alts=False, group_p=0.0)
     m = gen.gen(rnd, **kw)
     if not m["acyclic"]:
         acc.count("skipped-cyclic")
         return
+    if ties and gen.make_ties(rnd, m):
+        acc.count("tie-stratum")
+    else:
+        ties = False
     text1 = gen.render(m)
     p1, _, _ = run(text1)
     d1, end1 = dates(p1), p1["end"]
     rewrites = ["rename", "relref", "precedes", "shiftinline", "comments", "macros"]
     chosen = [rnd.choice(rewrites)] if rnd.random() < 0.6 else rnd.sample(rewrites, rnd.randint(2, 4))
+    if ties and "rename" not in chosen:
+        chosen.append("rename")       # the order of the renamed ids differs from the order of the old ones
     m2 = m
     idmap = {k: k for k in d1}
     applied = []
